@@ -1110,6 +1110,100 @@ def parse_independent(text):
         return {"line": 0, "recursion": True}
 
 
+# ----------------------------------------------------------------------------------------------
+# [constants] tables with arbitrary reference graphs
+# ----------------------------------------------------------------------------------------------
+
+CONST_KEYS = ["a", "b", "c", "base", "major", "ver-sion", "x_1", "é"]
+CONST_LITS = ["", "v", "-", ".", "x y", "1", "{+", "+}", "{+ +}", "\u200b", "{+a", "b+}", "{", "+"]
+PLACEHOLDER = re.compile(r"{\+([\w-]+)\+}")  # the documented placeholder syntax
+
+
+def gen_const_case(rng):
+    keys = rng.sample(CONST_KEYS, rng.randint(1, 6))
+    pool = keys + ["nope"]
+    entries = []
+    for k in keys:
+        r = rng.random()
+        if r < 0.1:
+            v = rng.choice([0, 7, -3, 1.5, 2.0, True])
+        else:
+            parts = []
+            for _ in range(rng.randint(1, 4)):
+                q = rng.random()
+                if q < 0.55:
+                    parts.append("{+" + rng.choice(pool) + "+}")
+                elif q < 0.62:
+                    parts.append("{+{+" + rng.choice(pool) + "+}+}")
+                else:
+                    parts.append(rng.choice(CONST_LITS))
+            v = "".join(parts)
+        entries.append([k, v])
+    return {"kind": "const", "entries": entries, "via": "project" if rng.random() < 0.25 else "open"}
+
+
+def const_text(case):
+    return toml_dump({"name": "c", "constants": {k: v for k, v in case["entries"]}})
+
+
+def segments(text):
+    """source text -> [["lit", s] | ["ref", name]] with the implementation's own pattern"""
+    out, pos = [], 0
+    for m in stypes.PAT_VARIABLE.finditer(text):
+        if m.start() > pos:
+            out.append(["lit", text[pos:m.start()]])
+        out.append(["ref", m.group(1)])
+        pos = m.end()
+    if pos < len(text):
+        out.append(["lit", text[pos:]])
+    return out
+
+
+def undeclared_names(diags):
+    out = []
+    for d in diags:
+        if d[0] == "ConstantNotDeclared":
+            out.append(re.sub(r" not defined as a source constant$", "", d[2]))
+    return out
+
+
+def constants_problem(table, constants_raw, diags):
+    """the property on the loaded [constants]: every value a string in which each placeholder of the source
+    was expanded (replaced by the loaded value of the constant it names) or reported as ConstantNotDeclared
+    (and blanked); nothing more is demanded (no particular order of declaration is imposed here)."""
+    if not table:
+        return None
+    final = {k: sv for k, (tn, sv) in constants_raw.items()}
+    reported = set(undeclared_names(diags))
+    for k, src in table.items():
+        if k not in constants_raw:
+            return f"constant {k} lost while loading"
+        tn, sv = constants_raw[k]
+        if tn != "str":
+            return f"constant {k} not rendered to a string ({tn})"
+        src = str(src)
+
+        def pattern(strict):
+            pat, pos = "", 0
+            for m in PLACEHOLDER.finditer(src):
+                pat += re.escape(src[pos:m.start()])
+                nm = m.group(1)
+                alts = [re.escape(final[nm])] if nm in final else []
+                if not strict or nm in reported:
+                    alts.append("\u200b")  # blanked; under `strict` only if it was reported
+                pat += "(?:" + "|".join(alts) + ")" if alts else "(?!)"
+                pos = m.end()
+            return pat + re.escape(src[pos:])
+
+        # some reading of the loaded value must explain every placeholder: expanded, or blanked AND reported
+        if re.fullmatch(pattern(True), sv, re.S) is None:
+            if re.fullmatch(pattern(False), sv, re.S) is None:
+                return (f"constant {k} = {src!r} loaded as {sv!r}: a placeholder was neither expanded to the loaded value of the "
+                        f"constant it names nor blanked and reported")
+            return f"constant {k} = {src!r} loaded as {sv!r}: a placeholder was blanked without a ConstantNotDeclared diagnostic (reported: {sorted(reported)})"
+    return None
+
+
 def missing_error_classes(case):
     """error classes the absent required fields of the top-level record can raise (set-order dependent)"""
     tj = resolve_ref(case["ty"])
@@ -1139,13 +1233,14 @@ class C16(core.PropertyCheck):
             "derived from 3 valid configurations by field deletion, kind swaps at every field incl. nested banner/manpage/bundle/associated-product "
             "tables, unknown-field insertion, duplicate keys/tables, token-level syntax damage, through ProjectConfig.open and Project(root, backend, {}) "
             "in a temp dir vs. `openConfig`; spec documents with random inherit graphs (acyclic, chains, cycles, ghosts) through Spec.loads vs. "
-            "`resolveCategory`. non-trivial = distinct case content whose implementation outcome is not a driver error")
+            "`resolveCategory`; [constants] tables with random reference graphs (backward, forward, self, undefined, nested braces, non-string values) "
+            "through ProjectConfig.open / Project(...) vs. `Constants.render`. non-trivial = distinct case content whose implementation outcome is not a driver error")
     assumptions = [
         "tomli returns plain dict/list/str/int/float/bool/date-time values or raises TOMLDecodeError (the harness parses each text itself to feed the glue model)",
         "opaque objects (Path, datetime…) matter to check_type only through the class names of their MRO and are not collections",
         "Python set order of `missing` keys only influences which of several errors is raised; cases compare error classes, and no declared class has two required fields whose absence raises different classes",
         "default values are not checked by check_type; that every declared default conforms to its field type is checked on the running Python (static obligation)",
-        "render_constants / validate_data are outside the Lean model: constants are compared through an independent recomputation, data-field diagnostics through Spec.get().data_fields",
+        "which substrings of a constant are placeholders is decided by the implementation's regex (Unicode \\w); the model works on the segments; validate_data is outside the Lean model (data-field diagnostics via Spec.get().data_fields)",
     ]
     extra_trusted = ["the translator gen_tables (harness/props/c16.py) that writes lean/SnootyVerif/Gen/Types.lean from typing.get_type_hints / dataclasses.fields"]
 
@@ -1272,6 +1367,9 @@ class C16(core.PropertyCheck):
         # 4. spec documents
         for _ in range(budget // 2):
             yield gen_spec_case(rng)
+        # 5. [constants] tables: forward / backward / self / undefined references, nested braces, non-strings
+        for _ in range(budget // 3):
+            yield gen_const_case(rng)
 
     def shrink_candidates(self, case):
         if case["kind"] == "ct":
@@ -1294,6 +1392,18 @@ class C16(core.PropertyCheck):
             lines = case["text"].split("\n")
             for i in range(len(lines)):
                 yield {**case, "text": "\n".join(lines[:i] + lines[i + 1:])}
+        elif case["kind"] == "const":
+            es = case["entries"]
+            for i in range(len(es)):
+                yield {**case, "entries": es[:i] + es[i + 1:]}
+            for i, (k, v) in enumerate(es):
+                if isinstance(v, str):
+                    segs = segments(v)
+                    for j in range(len(segs)):
+                        nv = "".join(("{+" + t + "+}") if kind == "ref" else t for kind, t in segs[:j] + segs[j + 1:])
+                        yield {**case, "entries": es[:i] + [[k, nv]] + es[i + 1:]}
+            if case["via"] != "open":
+                yield {**case, "via": "open"}
         elif case["kind"] == "spec":
             es = case["entries"]
             for i in range(len(es)):
@@ -1307,6 +1417,8 @@ class C16(core.PropertyCheck):
     # ---- implementation ----
     def run_impl(self, case):
         kind = case["kind"]
+        if kind == "const":
+            return self.run_impl({"kind": "toml", "text": const_text(case), "via": case["via"], "tag": "constants"})
         if kind == "ct":
             ty = py_type(case["ty"])
             data = from_val(case["val"])
@@ -1402,6 +1514,8 @@ class C16(core.PropertyCheck):
                 return None
             return {"op": "c16.open", "ty": {"k": "ref", "name": "ProjectConfig"}, "root": [c.__name__ for c in type(Path("/")).__mro__],
                     "parsed": parsed}
+        if kind == "const":
+            return {"op": "c16.constants", "table": [[k, segments(str(v))] for k, v in case["entries"]]}
         if kind == "spec":
             if case["version"] != 0:
                 return None
@@ -1414,6 +1528,16 @@ class C16(core.PropertyCheck):
 
     def compare(self, case, model, impl):
         kind = case["kind"]
+        if kind == "const":
+            if impl["out"] != "returned":
+                return f"constants table not loaded: {json.dumps(impl, ensure_ascii=False)[:200]}"
+            got = [[k, sv] for k, (tn, sv) in impl["constants_raw"].items()]
+            if got != model["constants"]:
+                return f"rendered constants: model {model['constants']} impl {got}"
+            names = undeclared_names(impl["diags"])
+            if names != model["diags"]:
+                return f"ConstantNotDeclared diagnostics: model {model['diags']} impl {names}"
+            return None
         if kind == "ct":
             if model["out"] == "ok":
                 py_type(case["ty"])
@@ -1519,18 +1643,18 @@ class C16(core.PropertyCheck):
             if "line" in parsed and not um:
                 return "TOML text that does not parse was accepted without diagnostic"
             if not um:
-                # constants expanded: every value a string; references to earlier constants replaced
                 table = from_val(parsed["table"]).get("constants", {}) if "table" in parsed else {}
-                seen = {}
-                for k, (tn, sv) in impl["constants_raw"].items():
-                    if table and tn != "str":
-                        return f"constant {k} not rendered to a string ({tn})"
-                    if k in table:
-                        want = re.sub(r"{\+([\w-]+)\+}", lambda m: str(seen[m.group(1)]) if m.group(1) in seen else "\u200b", str(table[k]))
-                        if sv != want:
-                            return f"constant {k} expanded to {sv!r}, expected {want!r}"
-                    seen[k] = sv
+                if isinstance(table, dict):
+                    return constants_problem(table, impl["constants_raw"], impl["diags"])
             return None
+        if kind == "const":
+            if impl["out"] == "other":
+                return f"opening the project raised {impl['exc']} at stage {impl.get('stage', 'config')} ({impl['msg']}) instead of reporting a configuration diagnostic"
+            if impl["out"] != "returned" or any(d[0] == "UnmarshallingError" for d in impl["diags"]):
+                return f"well-typed [constants] table rejected: {json.dumps(impl, ensure_ascii=False)[:200]}"
+            if impl["conform"]:
+                return f"returned configuration has a field not of its declared type: {impl['conform'][0]}"
+            return constants_problem({k: v for k, v in case["entries"]}, impl["constants_raw"], impl["diags"])
         if kind == "spec":
             if impl["out"] == "other":
                 return f"Spec.loads raised {impl['exc']} ({impl['msg']}) instead of a load error"
@@ -1579,6 +1703,11 @@ class C16(core.PropertyCheck):
             return None
 
     def finding_key(self, case, impl, desc):
+        if desc.startswith("constant "):
+            what = ("blanked without diagnostic" if "without a ConstantNotDeclared" in desc else
+                    "placeholder neither expanded nor reported" if "neither expanded" in desc else
+                    re.sub(r"^constant \S+ ", "", desc)[:60])
+            return f"{case['kind']}:constants:{what}"
         d = re.sub(r"\(.*", "", desc)
         d = re.sub(r":.*", "", d)
         return f"{case['kind']}:{d.strip()[:80]}"
@@ -1595,6 +1724,12 @@ class C16(core.PropertyCheck):
             if impl.get("out") == "error":
                 tags.append("err:" + impl["err"] + (":" + impl["msg"] if "msg" in impl else ""))
             tags.append("type:" + (case["ty"].get("name", "") if case["ty"]["k"] == "ref" else "synthetic"))
+        elif case["kind"] == "const":
+            keys = [k for k, _ in case["entries"]]
+            for i, (k, v) in enumerate(case["entries"]):
+                for kind_, nm in (segments(str(v)) if isinstance(v, str) else []):
+                    if kind_ == "ref":
+                        tags.append("const-ref:" + ("self" if nm == k else "backward" if nm in keys[:i] else "forward" if nm in keys else "undefined"))
         elif case["kind"] == "toml":
             tags.append("toml:" + case["tag"].split(":")[0] + ":" + case["via"])
         else:
